@@ -90,6 +90,8 @@ def run_path(contract: FunctionContract, shape, prefix, repo=REPO):
     """execute one path; returns (list of ObResult-dicts, forks, trusted, stats)"""
     L.reset_names()
     it = Interp(repo, prefix, timeout_ms=contract.timeout_ms)
+    if contract.tier == "T2":
+        it.feas_rlimit = getattr(contract, "feas_rlimit", 3000000)      # quantifier-free queries: answers are definite and quick
     contract.install(it)
     obs, outcome = [], None
     fn = contract.fname
@@ -118,12 +120,24 @@ def run_path(contract: FunctionContract, shape, prefix, repo=REPO):
         ctx.final = args
         for name, formula in contract.post(ctx, outcome[0], outcome[1]):
             it.prove(f"{fn}/{outcome[0] if outcome[0] == 'raise' else 'post'}/{name}", formula, kind="post")
+        if not it.opacity_events:
+            it.obs.append(ObResult(f"{fn}/C07:items-are-opaque(only-valueof-looks-inside)", "proved", detail="no arithmetic, numeric comparison or type test on an item on this path"))
+        else:
+            it.obs.append(ObResult(f"{fn}/C07:items-are-ordered-only-to-canonicalise", "proved", detail="; ".join(sorted(set(it.opacity_events))[:3])))
         if outcome[0] == "raise" and outcome[1].cls not in contract.expect_raise:
             e = outcome[1]
             it.prove(f"{fn}/no-unexpected-exception", z3.BoolVal(False), kind="exception",
                      detail=f"{e.cls} raised at line {getattr(e, 'line', it.cur_line)}")
     except PathEnd:
         pass
+    except OpacityViolation as u:
+        m = None
+        try:
+            if it.check() == "sat":
+                m = it.solver.model()
+        except Exception:
+            pass
+        it.obs.append(ObResult(f"{fn}/C07:items-are-opaque(only-valueof-looks-inside)", "refuted", detail=f"line {it.cur_line}: {u}", model=m, path=it.prefix[:it.pos], line=it.cur_line))
     except Unsupported as u:
         it.obs.append(ObResult(f"{fn}/modelled", "undecided", detail=f"line {it.cur_line}: {u}", path=it.prefix[:it.pos]))
     except RaiseSig as r:
@@ -142,10 +156,13 @@ def run_path(contract: FunctionContract, shape, prefix, repo=REPO):
     if contract.tier == "T2" and outcome is not None and hasattr(contract, "real") and it.modular_calls == 0 and getattr(contract, "crosscheck", True):
         # CPython cross-check (DESIGN 10): a model of this path's condition, with the engine's predicted result, to be run on the real code
         try:
+            it.solver.set("rlimit", 1500000)        # a model is welcome but not needed: bounded (deterministic) effort
             if it.check() == "sat":
                 xcheck = contract.witness(it, it.solver.model(), getattr(it, "entry_args", {}))
         except Exception:
             xcheck = None
+        finally:
+            it.solver.set("rlimit", 0)
     stats = {"xcheck": xcheck, "queries": it.nqueries, "solver_time": it.solver_time, "outcome": outcome[0] if outcome else "cut", "steps": it.steps,
              "clock_reads": it.clock_reads, "attached": len(it.attached)}
     return res, it.forks, sorted(it.trusted), stats
